@@ -398,6 +398,11 @@ fn cmd_check(prop: &str, tier: &str) -> i32 {
         "{} {}: scenarios={} evaluations={} calls={} wall={:.1}s violations(unlisted)={} known-finding-signatures={} other-property-violations-seen={:?}",
         prop, tier, agg.scenarios, agg.rep.evaluations, agg.rep.engine_calls, wall, replay_paths.len(), known_lines.len(), agg.other_props
     );
+    if !agg.hits.is_empty() {
+        // sensitivity figures (used by tools/regress_seeded.sh): how many scenarios hit, and how early
+        let idx: BTreeSet<u64> = agg.hits.iter().map(|(i, _, _)| *i).collect();
+        println!("hits: scenarios-with-a-hit={} first-index={} of {}", idx.len(), idx.iter().next().unwrap(), agg.scenarios);
+    }
     exit
 }
 
